@@ -117,14 +117,18 @@ def times_for(t, d, g1, g2):
 
 def build_set(times, layouts):
     from pycaption import Caption, CaptionList, CaptionNode, CaptionSet
-    from pycaption.geometry import Layout, Point, Size, UnitEnum
+    from pycaption.geometry import Layout, Padding, Point, Size, UnitEnum
 
     cl = CaptionList()
+    P = UnitEnum.PERCENT
     for i, (s, e) in enumerate(times):
         if layouts and i == 1:
-            la = Layout(origin=Point(Size(10, UnitEnum.PERCENT), Size(10, UnitEnum.PERCENT)))
-            lb = Layout(origin=Point(Size(20, UnitEnum.PERCENT), Size(60, UnitEnum.PERCENT)))
-            nodes = [CaptionNode.create_text(f"c{i}a", layout_info=la), CaptionNode.create_break(layout_info=la), CaptionNode.create_text(f"c{i}b", layout_info=lb)]
+            # "c1a" and "c1a2" (and the breaks after them) share one layout (paddings different on every side; two equal objects, as
+            # a reader builds them), "c1b" has another: WebVTT writes exactly two cues for this caption
+            mk = lambda: Layout(origin=Point(Size(10, P), Size(10, P)), padding=Padding(before=Size(1, P), after=Size(2, P), start=Size(5, P), end=Size(10, P)))  # noqa: E731
+            la, la2 = mk(), mk()
+            lb = Layout(origin=Point(Size(20, P), Size(60, P)))
+            nodes = [CaptionNode.create_text(f"c{i}a", layout_info=la), CaptionNode.create_break(layout_info=la), CaptionNode.create_text(f"c{i}a2", layout_info=la2), CaptionNode.create_break(layout_info=la2), CaptionNode.create_text(f"c{i}b", layout_info=lb)]
         else:
             nodes = [CaptionNode.create_text(f"c{i}")]
         cl.append(Caption(s, e, nodes))
